@@ -103,6 +103,19 @@ func runHistories(c *ctx, which string) error {
 		if err != nil {
 			return err
 		}
+		// mixed configuration: the transactions go through a handle that stores reflog messages
+		// verbatim, the compactions through a second handle opened WITHOUT that option; a
+		// compaction copies records, whoever runs it
+		stc := st
+		if cfg.Exact && which != "c12" && which != "c15" && c.rng.Intn(3) == 0 {
+			cc := gocfg
+			cc.ExactLogMessage = false
+			if h2, err := reftable.NewStack(dir, cc); err == nil {
+				stc = h2
+				defer h2.Close()
+				hist["mixed-config-histories"]++
+			}
+		}
 		hs := cfg.hashSize()
 		var pool []string
 		if which == "c12" {
@@ -343,19 +356,25 @@ func runHistories(c *ctx, which string) error {
 						}
 					}
 				case "C":
-					ok, err := reftable.VerifCompactRange(st, o.first, o.last, nil)
+					reftable.VerifReload(stc)
+					ok, err := reftable.VerifCompactRange(stc, o.first, o.last, nil)
 					if err != nil || !ok {
 						status = "err"
 					}
 				case "CA":
-					if err := st.CompactAll(nil); err != nil {
+					reftable.VerifReload(stc)
+					if err := stc.CompactAll(nil); err != nil {
 						status = "err"
 					}
 				case "CE":
+					reftable.VerifReload(stc)
 					e := o.exp
-					if err := st.CompactAll(&e); err != nil {
+					if err := stc.CompactAll(&e); err != nil {
 						status = "err"
 					}
+				}
+				if stc != st {
+					reftable.VerifReload(st)
 				}
 			}()
 			hist[o.kind+":"+status]++
